@@ -6,8 +6,9 @@
      result  = rep( (p >> (W + E - floored)) + (1 << (floored - E)) )
    The coefficients are the ones rounding_conversion<> produces from the doubles in the header,
    (trunc(d * 2^(W+1)) + 1) >> 1, computed once with exact rational arithmetic (python fractions) for W = 8, 16, 32.
-   `floored <= Exponent` compares a Rep with an int: for Rep = uint32_t the exponent is converted to unsigned, the
-   test is always true and the function returns rep 1 for every input (finding EXP2-UINT32-REP).
+   `floored <= Exponent` used to compare a Rep with an int: for Rep = uint32_t the exponent was converted to unsigned,
+   the test was always true and the function returned rep 1 for every input (finding EXP2-UINT32-REP, fixed: an unsigned
+   floored is never below the negative exponent).
    The judge uses the model to bind the exp2 findings: a rejected event is a listed finding only if its result equals
    this model's prediction. *)
 EXTENDS CnlTypes
@@ -36,8 +37,8 @@ Exp2Poly(xf, W) ==
 AsCodedExp2(raw, t, E) ==
     LET W == t.w  nb == -E
         n == ShrFloor(raw, nb)                                    \* floored
-        alwaysOne == t.s = 0 /\ t.w >= WINT                       \* unsigned, unpromoted Rep: `floored <= E` is unsigned
-        leE == IF alwaysOne THEN TRUE ELSE Le(n, FromInt(E))
+        \* (before the fix the test was `floored <= Exponent` on the raw types: unsigned -- hence always true -- for uint32_t)
+        leE == IF t.s = 0 THEN FALSE ELSE Le(n, FromInt(E))
     IN IF leE THEN [ub |-> FALSE, v |-> One]
        ELSE IF ~IsSmall(n) THEN [ub |-> TRUE, v |-> Zero]
        ELSE LET ni == ToInt(n)
